@@ -186,7 +186,13 @@ def run(module, tier, seed, nproc=16):
     violations = []
     known_hits = collections.OrderedDict()
     nondet = 0
+    # at most 48 failing cases are confirmed by replay (one per signature first, then in order): a change that breaks everything would
+    # otherwise spend its time replaying hundreds of equivalent failures one after the other
+    seen_sig, first, rest = set(), [], []
     for f in merged.failures:
+        (first if f["sig"] not in seen_sig else rest).append(f)
+        seen_sig.add(f["sig"])
+    for f in (first + rest)[:48]:
         try:
             r1 = module.replay(main, f["case"])
             r2 = module.replay(main, f["case"])
